@@ -207,6 +207,9 @@ Section Model.
     m_all_false (H - 2 * ((H - ih) / 2)) (W - 2 * ((W - iw) / 2)) (mps M) (morg M).
   Definition padded_grid_from_dropped (M : mask2d) (kh kw : Z) : list pt :=          (* before fixes/C12_padded_grid *)
     let s := padded_shape M kh kw in from_mask (m_all_false (fst s) (snd s) (mps M) zpt).
+  (* Grid2D.subtracted_from(offset): values - offset on Mask2D(mask, pixel_scales, origin - offset) *)
+  Definition subtracted_mask (M : mask2d) (off : pt) : mask2d := {| mk := mk M; mps := mps M; morg := psub (morg M) off |}.
+  Definition subtracted_grid (M : mask2d) (off : pt) : list pt := map (fun p => psub p off) (from_mask M).
   Definition over_sampled_grid (M : mask2d) (subs : list Z) : list pt := over_sampled (mk M) (mps M) (morg M) subs.
   Definition mask_centre (M : mask2d) : option pt := grid_centre (from_mask M).
   Definition mask_extent (M : mask2d) : ext := extent (rows (mk M)) (cols (mk M)) (mps M) (morg M).
@@ -460,8 +463,8 @@ Inductive gop :=
 | GFromMask | GAllFalse | GSel (idx : list nat) | GDerived (bm : mask) | GPadded (kh kw : Z) | GOver (subs : list Z)
 | GRadial (c : qpt) (shape_slim : Z) (remove_centre : bool) | GOverlay (sy sx : Z)
 | GHilbertImage (n : Z) | GHilbertCurve (curve : list qpt) (radius : Q)
-| GScaledOfPixels (pix : list qpt) | GScaledOfPixelCentres (pix : list qpt).
-Inductive mop := MZoomUnmasked | MZoomedAround (buffer : Z) | MPadded (kh kw : Z) | MTrimmedArray (ih iw : Z).
+| GScaledOfPixels (pix : list qpt) | GScaledOfPixelCentres (pix : list qpt) | GSubtracted (off : qpt).
+Inductive mop := MZoomUnmasked | MZoomedAround (buffer : Z) | MPadded (kh kw : Z) | MTrimmedArray (ih iw : Z) | MSubtracted (off : qpt).
 Inductive pop := PMaskCentre | PZoomOffsetScaled | PZoomCentre | PZoomOffsetPixels.
 Inductive dop := DApplyMask (padded : mask) | DNoiseScaling | DTrimmed (rz_data rz_noise : mask) | DSimulate (poisson : bool) | DS2N.
 
@@ -479,6 +482,7 @@ Definition gop_model (op : gop) (M : QM) : res (list qpt) :=
   | GHilbertCurve curve r => Ok (hilbert_curve_grid M curve r)
   | GScaledOfPixels pix => Ok (map (grid_scaled_of_pixels (rows (mk M)) (cols (mk M)) (mps M) (morg M)) pix)
   | GScaledOfPixelCentres pix => Ok (map (scaled_coordinates (rows (mk M)) (cols (mk M)) (mps M) (morg M)) pix)
+  | GSubtracted off => Ok (subtracted_grid M off)
   end.
 Definition gop_spec (op : gop) (M : QM) : res (list qpt) :=
   let m := mk M in let ps := mps M in let o := morg M in let H := rows m in let W := cols m in
@@ -495,6 +499,7 @@ Definition gop_spec (op : gop) (M : QM) : res (list qpt) :=
   | GHilbertCurve curve r => Ok (shift o (rel_hilbert_cut curve r))
   | GScaledOfPixels pix => Ok (shift o (map (rel_of_pixel H W ps) pix))
   | GScaledOfPixelCentres pix => Ok (shift o (map (rel_of_pixel_centre H W ps) pix))
+  | GSubtracted off => Ok (shift (psub o off) (rel_grid m ps))
   end.
 
 Definition mop_model (op : mop) (M : QM) : option geom :=
@@ -503,6 +508,7 @@ Definition mop_model (op : mop) (M : QM) : option geom :=
   | MZoomedAround b => option_map geom_of (zoomed_around_mask M b)
   | MPadded kh kw => Some (geom_of (padded_mask M kh kw))
   | MTrimmedArray ih iw => Some (geom_of (trimmed_array_mask M ih iw))
+  | MSubtracted off => Some (geom_of (subtracted_mask M off))
   end.
 Definition mop_spec (op : mop) (M : QM) : option geom :=
   let m := mk M in let ps := mps M in let o := morg M in
@@ -515,6 +521,7 @@ Definition mop_spec (op : mop) (M : QM) : option geom :=
       | Some (y0, y1, x0, x1), Some c => Some (y1 - y0 + 2 * b, x1 - x0 + 2 * b, ps, padd c o) | _, _ => None end
   | MPadded kh kw => Some (rows m + kh - 1, cols m + kw - 1, ps, o)
   | MTrimmedArray ih iw => Some (rows m - 2 * ((rows m - ih) / 2), cols m - 2 * ((cols m - iw) / 2), ps, o)
+  | MSubtracted off => Some (rows m, cols m, ps, psub o off)
   end.
 
 Definition pop_model (op : pop) (M : QM) : option qpt :=
@@ -633,6 +640,7 @@ Definition gop_translated (d : qpt) (a b : gop) : bool :=
   | GHilbertImage n, GHilbertImage n' => (n =? n')%Z
   | GHilbertCurve c r, GHilbertCurve c' r' => qg_eqb c c' && Qeq_bool r r'
   | GScaledOfPixels p, GScaledOfPixels p' | GScaledOfPixelCentres p, GScaledOfPixelCentres p' => qg_eqb p p'
+  | GSubtracted f, GSubtracted f' => qpt_eqb f f'
   | GFromMask, GFromMask | GAllFalse, GAllFalse => true
   | _, _ => false
   end.
@@ -641,6 +649,7 @@ Definition mop_same (a b : mop) : bool :=
   | MZoomUnmasked, MZoomUnmasked => true
   | MZoomedAround x, MZoomedAround y => (x =? y)%Z
   | MPadded a1 a2, MPadded b1 b2 | MTrimmedArray a1 a2, MTrimmedArray b1 b2 => (a1 =? b1)%Z && (a2 =? b2)%Z
+  | MSubtracted f, MSubtracted f' => qpt_eqb f f'
   | _, _ => false
   end.
 
